@@ -88,6 +88,48 @@ def search(ck, drv, tier, seed):
                         m = drv.call("pairing", z(n), z(D), F(flat(rec["noise"].double())), F(ctx.reshape(-1).double().tolist()))[0]
                         if not close(m, flat(s.double()), 1e-6):
                             mm.append({"rows": k, "n": n, "D": D, "embedding": embed})
+    # ---- a base distribution whose own draws reveal the context row (mean = 1000 * id), alone and under a flow
+    from nflows.distributions.normal import ConditionalDiagonalNormal
+    from nflows.flows.base import Flow
+    from nflows.transforms.standard import IdentityTransform, PointwiseAffineTransform
+
+    class Enc(nn.Module):
+        def __init__(self, D):
+            super().__init__()
+            self.D = D
+
+        def forward(self, c):
+            return torch.cat([1000.0 * c.expand(-1, self.D), torch.zeros(c.shape[0], self.D, dtype=c.dtype)], 1)
+    for D in (1, 2):
+        objs = {"ConditionalDiagonalNormal": ConditionalDiagonalNormal([D], context_encoder=Enc(D)),
+                "Flow(Identity, ConditionalDiagonalNormal)": Flow(IdentityTransform(), ConditionalDiagonalNormal([D], context_encoder=Enc(D))),
+                "Flow(Affine, ConditionalDiagonalNormal)": Flow(PointwiseAffineTransform(0.25, 1.0), ConditionalDiagonalNormal([D], context_encoder=Enc(D)))}
+        for name, d in objs.items():
+            for k in (1, 2, 3):
+                for n in (1, 2, 5):
+                    ctx = torch.arange(1, k + 1, dtype=torch.float32).reshape(k, 1)
+                    ck.case(("base-rows", name, D, k, n), nontrivial=k > 1 and n > 1)
+                    case = {"search": "base-rows", "object": name, "D": D, "rows": k, "n": n, "seed": seed}
+                    for meth in ("sample", "sample_and_log_prob"):
+                        torch.manual_seed(seed + k + n)
+                        r = attempt(getattr(d, meth), n, ctx)
+                        if r[0] != "ok":
+                            ck.finding("base-rows:%s-fails:%s" % (meth, name), "%s %s" % (r[1], r[2]), case)
+                            continue
+                        smp = r[1] if meth == "sample" else r[1][0]
+                        if list(smp.shape) != [k, n, D]:
+                            ck.finding("base-rows:shape:%s" % name, "%s -> %s" % (meth, list(smp.shape)), case)
+                            continue
+                        ids = torch.round((smp - (0.25 if "Affine" in name else 0.0)) / 1000.0)
+                        want = ctx.reshape(k, 1, 1).expand(k, n, D)
+                        if not torch.equal(ids, want):
+                            ck.finding("pairing:sample-drawn-under-wrong-context-row:%s:%s" % (name, meth),
+                                       "rows %d n %d: blocks carry context ids %s" % (k, n, ids[..., 0].tolist()), case)
+                        if meth == "sample_and_log_prob":
+                            lp2 = d.log_prob(smp.reshape(k * n, D), ctx.repeat_interleave(n, 0)).reshape(k, n)
+                            if not torch.allclose(r[1][1], lp2, atol=2e-3):
+                                ck.finding("pairing:returned-log_prob-is-not-log_prob-of-sample:%s" % name,
+                                           "max diff %g" % float((r[1][1] - lp2).abs().max()), case)
     if drv is not None:
         ck.correspondence("merge / repeat_rows / invert / split pairing vs Flow.sample_and_log_prob on recorded noise", ncorr, mm)
     # ---- library flows: log_prob(sample) = returned log_prob, per row; sample(n, ctx) shapes
